@@ -38,8 +38,9 @@ trigger, before the trial, because the generator provably lacked that input).  E
 input class, order or history the generator did not produce; the exception (C04d) was an oracle weakness: finite-difference
 errors were scaled by the analytic outputs only, so a derivative that was wrongly zero where the value is zero was dropped as
 unresolved.  No miss was a tolerance, and every strengthened check stayed silent on the unchanged tree over VERIF_SEED 0-4.
-Miss rate by round: a 9/20, b 7/20, c 11/20, d 3/20, e 6/12 — the later rounds hit generators already widened by the
-earlier ones.  After strengthening, every kept change is caught by the quick tier of its property's check;
+Miss rate by round: a 9/20, b 7/20, c 11/20, d 3/20, e 6/12 — round d (same axes as before: options, branches) hit generators
+already widened by the earlier rounds, round e opened a new axis (the kind of system) and found gaps again: the honest reading
+is that each new axis of variation costs a round, not that the generators are complete.  After strengthening, every kept change is caught by the quick tier of its property's check;
 several are also caught by a neighbouring property's check (listed).  What this does *not* show: the seeds are the
 changes these agents thought of; a change whose trigger lies outside every generator's input classes is still missed.
 
